@@ -97,9 +97,6 @@ TEnd == /\ IsEvent("end")
 TNext == TReset \/ TEnter \/ TRecursive \/ TMatched \/ TDone \/ TEnd
 TSpec == TInit /\ [][TNext]_tvars
 
-\* evaluated in every state reached by the trace (cheap structural invariants of the machine)
-TStackOk == Strict => NoDuplicateOnStack
-
 Accepted == LET n == TLCGet("stats").diameter - 1 IN
             IF n = Len(Rec) THEN TRUE ELSE Print(<<"REJECTED_AT", n + 1, Rec[n + 1]>>, FALSE)
 =============================================================================
